@@ -2,9 +2,14 @@ package props
 
 import (
 	"fmt"
+
+	"github.com/go-kid/ioc"
+	"github.com/go-kid/ioc/app"
+	"github.com/go-kid/ioc/container/support"
 	"runtime"
 	"sync"
 	"time"
+	"verifharness/mon"
 
 	"verifharness/core"
 	"verifharness/world"
@@ -18,7 +23,7 @@ func init() { core.Register(c14{}) }
 func (c14) ID() string    { return "C14" }
 func (c14) Level() string { return "exploration" }
 func (c14) Rule() string {
-	return "seeded starts with 0..40 closer components (plain, lazy, runner+closer, with dependencies) among other components; a seeded subset returns errors (all subsets for <= 4 closers across the case list), a seeded subset returns instantly, the rest block on a gate inside their own Close method: a controller releases them in a seeded order only once every gated closer has begun; if the number of closers that have begun does not move during 2 million scheduler yields and 3 s, the closers are declared stalled (slow closers prevented the others from being invoked) and everything is released. Oracle, sampled immediately after App.Close returns from the shared event log: every closer has exactly one close-begin and exactly one close-end event; afterwards (all gates released) still exactly one each. The same workload is repeated on a -race build; any race report with a go-kid/ioc frame is a violation. non-trivial = >= 2 gated closers with at least one failing or instant one; distinct = closer multiset + observed finishing order; closers that wire the application itself (names on both sides of it) and closers that are lazy post-processors take part; all workers run with the repository's own logger; typed-nil closer errors; every third case calls App.Close a second time; App.Close after a failed runner; race build: every second case without gates; closers exposed through decorators (a post-processor wraps each after its initialisation or as early reference)"
+	return "seeded starts with 0..40 closer components (plain, lazy, runner+closer, with dependencies) among other components; a seeded subset returns errors (all subsets for <= 4 closers across the case list), a seeded subset returns instantly, the rest block on a gate inside their own Close method: a controller releases them in a seeded order only once every gated closer has begun; if the number of closers that have begun does not move during 2 million scheduler yields and 3 s, the closers are declared stalled (slow closers prevented the others from being invoked) and everything is released. Oracle, sampled immediately after App.Close returns from the shared event log: every closer has exactly one close-begin and exactly one close-end event; afterwards (all gates released) still exactly one each. The same workload is repeated on a -race build; any race report with a go-kid/ioc frame is a violation. non-trivial = >= 2 gated closers with at least one failing or instant one; distinct = closer multiset + observed finishing order; closers that wire the application itself (names on both sides of it) and closers that are lazy post-processors take part; all workers run with the repository's own logger; typed-nil closer errors; every third case calls App.Close a second time; App.Close after a failed runner; race build: every second case without gates; closers exposed through decorators (a post-processor wraps each after its initialisation or as early reference); topLevel family (application started through the package-level ioc.Run with its own registry, closers announced through ioc.Register and passed directly)"
 }
 func (c14) Assumptions() []string {
 	return []string{"gates live inside harness-supplied Close methods (caller code), so no failpoint in the repository is needed to overlap the concurrent Close calls"}
@@ -54,7 +59,72 @@ func (g *closeGate) fn(who world.Node) {
 func (p c14) Run(c *core.Ctx)     { p.run(c) }
 func (p c14) RunRace(c *core.Ctx) { p.run(c) }
 
+// topLevel: the application is started through the package-level ioc.Run with a registry of its own, some
+// closers were announced through ioc.Register (the idiom for packages that register from init()), others are
+// passed to Run: all of them are registered closers, Close reaches each exactly once.
+// (ioc.Register accumulates process-wide: every announced closer stays announced for later starts of the same
+// process and logs to its own case's log; names are unique per case.)
+func (p c14) topLevel(c *core.Ctx) {
+	log := mon.NewLifecycle()
+	var names []string
+	var announced, direct []any
+	for i := 0; i < 1+c.Rng.Intn(3); i++ {
+		t := &world.TopCloser{Nm: fmt.Sprintf("announced-closer-%d-%d-%v", c.Index, i, c.Race), Log: log, Fail: c.Rng.Intn(3) == 0}
+		announced = append(announced, t)
+		names = append(names, t.Nm)
+	}
+	for i := 0; i < c.Rng.Intn(3); i++ {
+		t := &world.TopCloser{Nm: fmt.Sprintf("direct-closer-%d-%d-%v", c.Index, i, c.Race), Log: log, Fail: c.Rng.Intn(3) == 0}
+		direct = append(direct, t)
+		names = append(names, t.Nm)
+	}
+	ioc.Register(announced...)
+	ops := []app.SettingOption{app.SetLogger(world.Logger), app.SetComponents(direct...)}
+	own := app.SetRegistry(support.NewRegistry())
+	if c.Rng.Intn(3) > 0 {
+		// (the registry option precedes the components passed to Run: options apply in the order given)
+		ops = append([]app.SettingOption{own}, ops...)
+	}
+	var a *app.App
+	var err error
+	var pan any
+	func() {
+		defer func() { pan = recover() }()
+		a, err = ioc.Run(ops...)
+		if err == nil {
+			a.Close()
+		}
+	}()
+	c.Count("starts", 1)
+	c.Count("starts_through_the_package_level_run", 1)
+	if pan != nil || err != nil {
+		c.Fail("", fmt.Sprintf("application started through ioc.Run with announced closers: panic=%v err=%v", pan, err), map[string]any{"closers": names})
+		return
+	}
+	ev := log.Events()
+	for _, name := range names {
+		b, e := 0, 0
+		for _, x := range ev {
+			if x.Who == name && x.Kind == "close-begin" {
+				b++
+			}
+			if x.Who == name && x.Kind == "close-end" {
+				e++
+			}
+		}
+		if b != 1 || e != 1 {
+			c.Fail("", fmt.Sprintf("application started through ioc.Run (%d closers announced through ioc.Register, %d passed to Run): after App.Close closer %s has begun %d time(s) and finished %d time(s)", len(announced), len(direct), name, b, e), map[string]any{"closers": names, "events": fmt.Sprint(ev)})
+			return
+		}
+	}
+	c.Count("closers_checked", len(names))
+}
+
 func (p c14) run(c *core.Ctx) {
+	if c.Index%40 == 23 {
+		p.topLevel(c)
+		return
+	}
 	sc := RandomGraph(c.Rng, GraphOpts{MinN: 0, MaxN: 6, Types: world.TypesPlain, PCycle: 0.3, Chords: 1, PUnnamed: 0.3})
 	g := &world.G{Rng: c.Rng, Sc: sc}
 	nOther := len(sc.Nodes)
@@ -140,6 +210,11 @@ func (p c14) run(c *core.Ctx) {
 	hold := time.Duration(0)
 	if c.Index%200 == 199 && c.Index < 2000 && gate.expected > 0 {
 		hold = 4 * time.Second
+	}
+	// a destruction-aware post-processor that is interested in none of the closers: they are closed all the same
+	if c.Rng.Intn(4) == 0 {
+		zero = append(zero, &world.DestructionPP{})
+		c.Count("starts_with_a_destruction_aware_post_processor", 1)
 	}
 	// in a fifth of the cases a post-processor exposes (some of) the closers through decorators - a wrapper
 	// around each that forwards Close: a decorated closer is still a closer
